@@ -43,6 +43,23 @@ def first_error_keyword(v, d: Any) -> Optional[str]:
     return str(err.validator)
 
 
+def error_keywords(v, d: Any) -> set:
+    """Every keyword reported anywhere in the error tree (anyOf / oneOf contexts included)."""
+    out = set()
+
+    def walk(errs, depth=0):
+        for e in errs:
+            out.add(str(e.validator))
+            if e.context and depth < 12:
+                walk(e.context, depth + 1)
+
+    try:
+        walk(v.iter_errors(d))
+    except Exception as e:
+        out.add(f"<{type(e).__name__}>")
+    return out
+
+
 def is_valid(v, d: Any) -> bool:
     return v.is_valid(d)
 
